@@ -99,21 +99,52 @@ Definition set_std (s : sstate) (v : Q) :=
 Definition rebin_if_initialised (s : sstate) : sstate :=
   if (0 <? s_bins s)%Z then update_cache s else s.
 
+(* the policy of the five property setters (source: laserspectrum.pyx of cherab/core/laser and of
+   cherab/core/model/laser; regenerated from the current source on every run and compared by the kernel,
+   coq/Gen/C18/Policy.v):  which class owns the property, which validation comes first, how the cache is refreshed *)
+Inductive sattr := AMin | AMax | ABins | AMean | AStd.
+Inductive scheck :=
+| CRangeMin      (* self._check_wavelength_validity(value, self.max_wavelength) *)
+| CRangeMax      (* self._check_wavelength_validity(self.min_wavelength, value) *)
+| CPos.          (* if value <= 0: raise ValueError *)
+Inductive srebin :=
+| RAlways        (* self._update_cache() *)
+| RIfInit.       (* if self._bins > 0: self._update_cache() *)
+Definition spolicy (a : sattr) : bool * scheck * srebin :=      (* (GaussianSpectrum only, check, refresh) *)
+  match a with
+  | AMin => (false, CRangeMin, RAlways)
+  | AMax => (false, CRangeMax, RAlways)
+  | ABins => (false, CPos, RAlways)
+  | AMean => (true, CPos, RIfInit)
+  | AStd => (true, CPos, RIfInit)
+  end.
+Definition gauss_only (a : sattr) : bool := fst (fst (spolicy a)).
+Definition check_of (a : sattr) : scheck := snd (fst (spolicy a)).
+Definition rebin_of (a : sattr) : srebin := snd (spolicy a).
+
+Definition check_fails (c : scheck) (s : sstate) (v : Q) : bool :=
+  match c with
+  | CRangeMin => range_invalid v (s_max s)
+  | CRangeMax => range_invalid (s_min s) v
+  | CPos => Qle_bool v 0
+  end.
+Definition rebin_by (r : srebin) (s : sstate) : sstate :=
+  match r with RAlways => update_cache s | RIfInit => rebin_if_initialised s end.
+Definition missing (a : sattr) (s : sstate) : bool :=
+  gauss_only a && match sk s with SConst => true | SGauss => false end.
+
+Definition sset (a : sattr) (s : sstate) (v : Q) (assign : sstate) : sstate * res :=
+  if missing a s then (s, RAttr)
+  else if check_fails (check_of a) s v then (s, RValue)
+  else (rebin_by (rebin_of a) assign, ROk).
+
 Definition sstep (s : sstate) (o : sop) : sstate * res :=
   match o with
-  | SSetMin v => if range_invalid v (s_max s) then (s, RValue) else (update_cache (set_min s v), ROk)
-  | SSetMax v => if range_invalid (s_min s) v then (s, RValue) else (update_cache (set_max s v), ROk)
-  | SSetBins n => if (n <=? 0)%Z then (s, RValue) else (update_cache (set_bins s n), ROk)
-  | SSetMean v =>
-      match sk s with
-      | SConst => (s, RAttr)
-      | SGauss => if Qle_bool v 0 then (s, RValue) else (rebin_if_initialised (set_mean s v), ROk)
-      end
-  | SSetStd v =>
-      match sk s with
-      | SConst => (s, RAttr)
-      | SGauss => if Qle_bool v 0 then (s, RValue) else (rebin_if_initialised (set_std s v), ROk)
-      end
+  | SSetMin v => sset AMin s v (set_min s v)
+  | SSetMax v => sset AMax s v (set_max s v)
+  | SSetBins n => sset ABins s (inject_Z n) (set_bins s n)
+  | SSetMean v => sset AMean s v (set_mean s v)
+  | SSetStd v => sset AStd s v (set_std s v)
   | SBad g => match g, sk s with true, SConst => (s, RAttr) | _, _ => (s, RType) end
   end.
 
@@ -155,10 +186,15 @@ Definition sconstruct (k : skind) (a : sargs) : option sstate :=
 Definition sargs_of (s : sstate) : sargs := mkSA (s_min s) (s_max s) (s_bins s) (s_mean s) (s_std s).
 
 (* accessors: get_min_wavelenth get_max_wavelenth get_spectral_bins get_delta_wavelength *)
-Definition get_min_wavelenth (s : sstate) : Q := s_min s.
-Definition get_max_wavelenth (s : sstate) : Q := s_max s.
+(* which attribute each accessor returns (regenerated from the source and compared by the kernel, Policy.v) *)
+Inductive sacc := GMin | GMax | GDelta.
+Inductive sfield := WMin | WMax | WDelta.
+Definition acc_field (g : sacc) : sfield := match g with GMin => WMin | GMax => WMax | GDelta => WDelta end.
+Definition getw (f : sfield) (s : sstate) : Q := match f with WMin => s_min s | WMax => s_max s | WDelta => s_delta s end.
+Definition get_min_wavelenth (s : sstate) : Q := getw (acc_field GMin) s.
+Definition get_max_wavelenth (s : sstate) : Q := getw (acc_field GMax) s.
 Definition get_spectral_bins (s : sstate) : Z := s_bins s.
-Definition get_delta_wavelength (s : sstate) : Q := s_delta s.
+Definition get_delta_wavelength (s : sstate) : Q := getw (acc_field GDelta) s.
 
 (* bin edges as the property talks about them *)
 Definition edge (s : sstate) (i : nat) : Q := s_min s + inject_Z (Z.of_nat i) * s_delta s.
